@@ -244,6 +244,13 @@ def run_b(res):
             res.violation(r["detail"], {"engine": "builtins", "type": r["type"], "name": r["name"], "replay": r["replay"], "probes_failed": r["probes_failed"]})
         elif r["status"] == "inconclusive":
             res.inconclusive.append(f"engine B: {r['type']}.{r['name']}: {r['why'][:240]}")
+    import strdeleg
+    srows, ssecs = strdeleg.check(open(mir_path).read(), REPO, tv.EXTRACT, os.path.join(BUILD, "builtins"))
+    for r in srows:
+        if r["status"] == "violation":
+            res.violation(r["detail"], {"engine": "builtins", "type": r["type"], "name": r["name"], "replay": r["replay"], "probes_failed": r["probes_failed"]})
+        elif r["status"] == "inconclusive":
+            res.inconclusive.append(f"engine B: String.{r['name']}: {r['why'][:240]}")
     expected = {(t, n) for t in ("f32", "f64") for n in ("floor", "ceil", "round", "abs", "sqrt", "pow", "is_nan", "is_infinite", "is_finite")}
     missing = expected - {(r["type"], r["name"]) for r in rows}
     if missing:
@@ -256,10 +263,15 @@ def run_b(res):
         "mir_dump_s": _state.get("dump_s"),
         "bounds": "none on the arguments (every f32/f64 bit pattern; all NaNs one value); powf uninterpreted (argument order only)",
         "bodies": {f"{r['type']}.{r['name']}": r.get("body", "") for r in decided},
+        "string_delegations": {"decided": [f"String.{r['name']}" for r in srows if r["status"] == "ok"], "bodies": {r["name"]: r.get("body", "") for r in srows},
+                               "solver_queries": sum(r["queries"] for r in srows), "wall_s": ssecs,
+                               "what": "the body registered under each String method name (basic.rs wrapper -> RotoString::m -> str::m, from the MIR dump) equals the "
+                                       "uninterpreted function of the documented `str` operation applied to the parameters in order; Deref/Into/AsRef/field projections "
+                                       "are identities; mismatches confirmed on concrete probes against the real JIT"},
         "delegations": {"decided": [f"{r['type']}.{r['name']}" for r in drows if r["status"] == "ok"],
                         "what": "IpAddr / Prefix methods: the MIR body of the registered wrapper equals the uninterpreted function of the std / inetnum "
                                 "operation it documents, applied to its parameters in order (uninterpreted sorts for the operands); a mismatch is confirmed "
                                 "on concrete probes against the real JIT before it is reported"},
     }
-    res.cov["evaluations"] = res.cov.get("evaluations", 0) + len(decided) + sum(1 for r in drows if r["status"] == "ok")
+    res.cov["evaluations"] = res.cov.get("evaluations", 0) + len(decided) + sum(1 for r in drows if r["status"] == "ok") + sum(1 for r in srows if r["status"] == "ok")
     return rows
